@@ -72,6 +72,11 @@ def cases(tier: str, seed: int) -> List[Dict[str, Any]]:
             for red in ("mean", "sum"):
                 out.append({"op": "cross_entropy", "V": v, "mult": m, "reduction": red, "uniform": False, "seed": seed})
             out.append({"op": "cross_entropy", "V": v, "mult": m, "reduction": "mean", "uniform": True, "seed": seed})
+            if v <= 1000:
+                # the same targets given as one-hot class probabilities (a valid F.cross_entropy form; same gradient)
+                for red in ("mean", "sum"):
+                    out.append({"op": "cross_entropy", "V": v, "mult": m, "reduction": red, "uniform": False, "onehot": True, "seed": seed})
+                out.append({"op": "cross_entropy", "V": v, "mult": m, "reduction": "mean", "uniform": True, "onehot": True, "seed": seed})
     for w in [16, 17, 32, 64, 256, 1024] + ([24, 100, 4096] if th else []):
         for op in ("layer_norm", "rms_norm"):
             for nd in (1, 2):
@@ -162,6 +167,8 @@ def run_case(case: Dict[str, Any]) -> Dict[str, Any]:
             x = torch.zeros(n, V) if case["uniform"] else torch.randn(n, V, generator=g)
             x = x.double().requires_grad_(True)
             t = torch.randint(0, V, (n,), generator=g)
+            if case.get("onehot"):
+                t = torch.nn.functional.one_hot(t, V).to(torch.float64)
             loss = U.cross_entropy(x, t, reduction=case["reduction"], mult=case["mult"])
             (gx,) = torch.autograd.grad(loss, x)
             if case["uniform"]:
